@@ -37,7 +37,7 @@ def rand_filters(rng):
             ['permit', ['value', 'source']], ['permit', []], ['rename', 'value', 'v'],
             ['copy', 'value', 'copy'], ['modify', 'value', 'succ'],
             ['modify', 'value', 'reject_falsy'], ['modify', 'previous', 'delete_truthy']])
-        fs.append(['dataedit', rng.choice(['class', 'instance', 'instance', 'chainmap', 'userdict']), [op]])
+        fs.append(['dataedit', rng.choice(['class', 'instance', 'instance', 'chainmap', 'userdict', 'inplace']), [op]])
     return fs
 
 
